@@ -59,7 +59,9 @@ def _xhj_gc_commands_to_rmfiles(hsize, files):
 
 def _xhj_gc_files_to_rmfiles(hsize, files):
     """Return the number and list of history files to remove to get under the file limit."""
-    rmfiles = files[:-hsize] if len(files) > hsize else []
+    # (not ``files[:-hsize]``: that keeps everything for a limit of 0 and
+    # cannot slice with a float limit such as ``(1.0, "files")``)
+    rmfiles = files[: len(files) - int(hsize)] if len(files) > hsize else []
     return len(rmfiles), rmfiles
 
 
